@@ -89,17 +89,17 @@ for _pid in ["C03", "C05", "C07", "C13", "C17"]:
     STAGES[_pid].append(_conc(_pid, 200, 1000))
 
 RULES = {
-    'C01': "cacheconc stage: 2..16 (thorough ..64) goroutines x 10..120 generated ops on 2..32 shared keys (hot-key bias, some owned keys), GOMAXPROCS 1..16, yielding/fake-sleeping callbacks, setBufSize 1..1024, MaxCost 3..22, inside a synctest bubble; every op and callback stamped from one atomic counter; history oracles are linear-time and schedule-independent. Key types uint64,int,int32,uint32,int64,uint,byte,string,[]byte; for string/[]byte also Config.KeyToHash mapping all keys onto 1..3 primary hashes with distinct non-zero conflicts (and a distinct-primaries control). Oracle: every value returned by Get/IterValues was supplied by a Set for exactly that key whose invocation precedes the read's return. Non-trivial: >=1 hit on a key sharing its primary hash with another written key, or >=1 hit while a write to the same key was in flight; distinct = FNV hash of (config, programs).",
+    'C01': "cacheconc stage: 2..16 (thorough ..64) goroutines x 10..120 generated ops on 2..32 shared keys (hot-key bias, some owned keys), GOMAXPROCS 1..16, yielding/fake-sleeping callbacks, setBufSize 1..1024, MaxCost 3..22, inside a synctest bubble; every op and callback stamped from one atomic counter; history oracles are linear-time and schedule-independent. Key types uint64,int,int32,uint32,int64,uint,byte,string,[]byte and named types of them (reflection path of KeyToHash); text keys include the empty key, NUL bytes, one number at several widths, shared prefixes, 8/9-byte keys; a yielding ShouldUpdate predicate in some cases; for string/[]byte also Config.KeyToHash mapping all keys onto 1..3 primary hashes with distinct non-zero conflicts (and a distinct-primaries control). Oracle: every value returned by Get/IterValues was supplied by a Set for exactly that key whose invocation precedes the read's return. Non-trivial: >=1 hit on a key sharing its primary hash with another written key, or >=1 hit while a write to the same key was in flight; distinct = FNV hash of (config, programs).",
     'C02': "cacheconc stage: 2..16 (thorough ..64) goroutines x 10..120 generated ops on 2..32 shared keys (hot-key bias, some owned keys), GOMAXPROCS 1..16, yielding/fake-sleeping callbacks, setBufSize 1..1024, MaxCost 3..22, inside a synctest bubble; every op and callback stamped from one atomic counter; history oracles are linear-time and schedule-independent. Oracle: no Get/IterValues invoked after a value's OnExit stamp returns it. cachesm stage: sequential client + harness-owned applier + synctest fake clock (DESIGN.md section 3, E1). Per case a config (MaxCost fitting 2..5 items or roomy, NumCounters, BufferItems, Metrics, IgnoreInternalCost, Cost fn, ShouldUpdate fn, ticker 1..5 s, setBufSize 1..64, bucket 1|5 s, 8|32 keys) and 5..60+ generated actions from Set/SetWithTTL/Del/Get/GetTTL/IterValues/Step(n)/Wait/park-in-Wait/Advance(d)/Sweep/SweepWith(program inside the j-th OnEvict)/Quiesce/UpdateMaxCost/Clear (stand-in or live applier), always ended by drain + Close + calls on the closed cache. Oracle: reference model with explicit FIFO (rules R1-R9); only assertions owned by this property are reported, a case that breaks another property's assertion first is discarded and counted. C02-owned: no read returns a value already passed to OnExit / already overwritten. Non-trivial (conc): >=1 served value that later exited; (cachesm): eviction, expiry or Del occurred and a drained check saw residents.",
     'C03': "cachesm stage: sequential client + harness-owned applier + synctest fake clock (DESIGN.md section 3, E1). Per case a config (MaxCost fitting 2..5 items or roomy, NumCounters, BufferItems, Metrics, IgnoreInternalCost, Cost fn, ShouldUpdate fn, ticker 1..5 s, setBufSize 1..64, bucket 1|5 s, 8|32 keys) and 5..60+ generated actions from Set/SetWithTTL/Del/Get/GetTTL/IterValues/Step(n)/Wait/park-in-Wait/Advance(d)/Sweep/SweepWith(program inside the j-th OnEvict)/Quiesce/UpdateMaxCost/Clear (stand-in or live applier), always ended by drain + Close + calls on the closed cache. Oracle: reference model with explicit FIFO (rules R1-R9); only assertions owned by this property are reported, a case that breaks another property's assertion first is discarded and counted. C03-owned: after every applied item RemainingCost()==MaxCost-sum(accounted)==MaxCost-model used; cost>MaxCost never admitted; OnEvict carries the accounted cost; RemainingCost()>=0 when drained unless a cost-raising overwrite occurred. Non-trivial: an admission that needed eviction after a cost-changing overwrite/Del was applied. cacheconc stage: 2..16 (thorough ..64) goroutines x 10..120 generated ops on 2..32 shared keys (hot-key bias, some owned keys), GOMAXPROCS 1..16, yielding/fake-sleeping callbacks, setBufSize 1..1024, MaxCost 3..22, inside a synctest bubble; every op and callback stamped from one atomic counter; history oracles are linear-time and schedule-independent. End state after Wait: RemainingCost identity.",
     'C04': "cacheconc stage: 2..16 (thorough ..64) goroutines x 10..120 generated ops on 2..32 shared keys (hot-key bias, some owned keys), GOMAXPROCS 1..16, yielding/fake-sleeping callbacks, setBufSize 1..1024, MaxCost 3..22, inside a synctest bubble; every op and callback stamped from one atomic counter; history oracles are linear-time and schedule-independent. Oracle after Close: every value whose Set returned true has exactly one OnExit, none for refused Sets, OnEvict/OnReject <=1 each and before the OnExit, values accepted before a Clear was invoked exit before it returns. cachesm stage: sequential client + harness-owned applier + synctest fake clock (DESIGN.md section 3, E1). Per case a config (MaxCost fitting 2..5 items or roomy, NumCounters, BufferItems, Metrics, IgnoreInternalCost, Cost fn, ShouldUpdate fn, ticker 1..5 s, setBufSize 1..64, bucket 1|5 s, 8|32 keys) and 5..60+ generated actions from Set/SetWithTTL/Del/Get/GetTTL/IterValues/Step(n)/Wait/park-in-Wait/Advance(d)/Sweep/SweepWith(program inside the j-th OnEvict)/Quiesce/UpdateMaxCost/Clear (stand-in or live applier), always ended by drain + Close + calls on the closed cache. Oracle: reference model with explicit FIFO (rules R1-R9); only assertions owned by this property are reported, a case that breaks another property's assertion first is discarded and counted. C04-owned: per-callback bookkeeping, nothing unreleased after Clear/Close. Non-trivial: buffer-full drop + rejection/eviction + a Clear (cachesm: that found buffered items).",
-    'C05': "cachesm stage: sequential client + harness-owned applier + synctest fake clock (DESIGN.md section 3, E1). Per case a config (MaxCost fitting 2..5 items or roomy, NumCounters, BufferItems, Metrics, IgnoreInternalCost, Cost fn, ShouldUpdate fn, ticker 1..5 s, setBufSize 1..64, bucket 1|5 s, 8|32 keys) and 5..60+ generated actions from Set/SetWithTTL/Del/Get/GetTTL/IterValues/Step(n)/Wait/park-in-Wait/Advance(d)/Sweep/SweepWith(program inside the j-th OnEvict)/Quiesce/UpdateMaxCost/Clear (stand-in or live applier), always ended by drain + Close + calls on the closed cache. Oracle: reference model with explicit FIFO (rules R1-R9); only assertions owned by this property are reported, a case that breaks another property's assertion first is discarded and counted. C05-owned: once Del(k) returned, the FIFO drained and no Set(k) was issued, every read of k misses. Non-trivial: Del issued while an insert of k was still buffered. cacheconc stage: 2..16 (thorough ..64) goroutines x 10..120 generated ops on 2..32 shared keys (hot-key bias, some owned keys), GOMAXPROCS 1..16, yielding/fake-sleeping callbacks, setBufSize 1..1024, MaxCost 3..22, inside a synctest bubble; every op and callback stamped from one atomic counter; history oracles are linear-time and schedule-independent. Owned keys: Del, Wait, Get by the owner misses.",
-    'C06': "cachesm stage: sequential client + harness-owned applier + synctest fake clock (DESIGN.md section 3, E1). Per case a config (MaxCost fitting 2..5 items or roomy, NumCounters, BufferItems, Metrics, IgnoreInternalCost, Cost fn, ShouldUpdate fn, ticker 1..5 s, setBufSize 1..64, bucket 1|5 s, 8|32 keys) and 5..60+ generated actions from Set/SetWithTTL/Del/Get/GetTTL/IterValues/Step(n)/Wait/park-in-Wait/Advance(d)/Sweep/SweepWith(program inside the j-th OnEvict)/Quiesce/UpdateMaxCost/Clear (stand-in or live applier), always ended by drain + Close + calls on the closed cache. Oracle: reference model with explicit FIFO (rules R1-R9); only assertions owned by this property are reported, a case that breaks another property's assertion first is discarded and counted. Roomy configs only (MaxCost 2^40, small costs). C06-owned: Set return values given FIFO occupancy, every Get/GetTTL/IterValues result equals the reference map (keys with duplicate buffered inserts are outside the premise), buffer empty when the reference FIFO is, a parked Wait returns exactly when its marker is consumed. Non-trivial: a hit on a value whose insert stayed buffered across >=1 other client call and a Wait with >=2 pending items.",
+    'C05': "cachesm stage: sequential client + harness-owned applier + synctest fake clock (DESIGN.md section 3, E1). Per case a config (MaxCost fitting 2..5 items or roomy, NumCounters, BufferItems, Metrics, IgnoreInternalCost, Cost fn, ShouldUpdate fn, ticker 1..5 s, setBufSize 1..64, bucket 1|5 s, 8|32 keys) and 5..60+ generated actions from Set/SetWithTTL/Del/Get/GetTTL/IterValues/Step(n)/Wait/park-in-Wait/Advance(d)/Sweep/SweepWith(program inside the j-th OnEvict)/Quiesce/UpdateMaxCost/Clear (stand-in or live applier), always ended by drain + Close + calls on the closed cache. Oracle: reference model with explicit FIFO (rules R1-R9); only assertions owned by this property are reported, a case that breaks another property's assertion first is discarded and counted. C05-owned: once Del(k) returned, the FIFO drained and no Set(k) was issued, every read of k misses. Non-trivial: Del issued while an insert of k was still buffered. cacheconc stage: 2..16 (thorough ..64) goroutines x 10..120 generated ops on 2..32 shared keys (hot-key bias, some owned keys), GOMAXPROCS 1..16, yielding/fake-sleeping callbacks, setBufSize 1..1024, MaxCost 3..22, inside a synctest bubble; every op and callback stamped from one atomic counter; history oracles are linear-time and schedule-independent. Owned keys: Del, Wait, Get by the owner misses; a third of the cases use string keys with engineered primary-hash collisions, owners have two private keys and the pattern Set(a), [Del(b)], Del(a), Wait, Get(a) is generated as a unit.",
+    'C06': "cachesm stage: sequential client + harness-owned applier + synctest fake clock (DESIGN.md section 3, E1). Per case a config (MaxCost fitting 2..5 items or roomy, NumCounters, BufferItems, Metrics, IgnoreInternalCost, Cost fn, ShouldUpdate fn, ticker 1..5 s, setBufSize 1..64, bucket 1|5 s, 8|32 keys) and 5..60+ generated actions from Set/SetWithTTL/Del/Get/GetTTL/IterValues/Step(n)/Wait/park-in-Wait/Advance(d)/Sweep/SweepWith(program inside the j-th OnEvict)/Quiesce/UpdateMaxCost/Clear (stand-in or live applier), always ended by drain + Close + calls on the closed cache. Oracle: reference model with explicit FIFO (rules R1-R9); only assertions owned by this property are reported, a case that breaks another property's assertion first is discarded and counted. Roomy configs only: MaxCost 2^40, or 'snug' (2-4 keys, MaxCost = keys x largest generated cost) with the assertion that nothing is evicted or turned away when everything fits. C06-owned: Set return values given FIFO occupancy, every Get/GetTTL/IterValues result equals the reference map (keys with duplicate buffered inserts are outside the premise), buffer empty when the reference FIFO is, a parked Wait returns exactly when its marker is consumed. Non-trivial: a hit on a value whose insert stayed buffered across >=1 other client call and a Wait with >=2 pending items.",
     'C07': "cachesm stage: sequential client + harness-owned applier + synctest fake clock (DESIGN.md section 3, E1). Per case a config (MaxCost fitting 2..5 items or roomy, NumCounters, BufferItems, Metrics, IgnoreInternalCost, Cost fn, ShouldUpdate fn, ticker 1..5 s, setBufSize 1..64, bucket 1|5 s, 8|32 keys) and 5..60+ generated actions from Set/SetWithTTL/Del/Get/GetTTL/IterValues/Step(n)/Wait/park-in-Wait/Advance(d)/Sweep/SweepWith(program inside the j-th OnEvict)/Quiesce/UpdateMaxCost/Clear (stand-in or live applier), always ended by drain + Close + calls on the closed cache. Oracle: reference model with explicit FIFO (rules R1-R9); only assertions owned by this property are reported, a case that breaks another property's assertion first is discarded and counted. TTL-heavy profile with Advance to exp-1ns/exp/exp+1ns. C07-owned: reads serve an entry iff now<=expiration (either answer at the instant), GetTTL == remaining time exactly, (0,true) without TTL, negative ttl returns false. Non-trivial: an observation within 1ns of an expiration and a TTL replaced while the old one was pending. cacheconc stage: 2..16 (thorough ..64) goroutines x 10..120 generated ops on 2..32 shared keys (hot-key bias, some owned keys), GOMAXPROCS 1..16, yielding/fake-sleeping callbacks, setBufSize 1..1024, MaxCost 3..22, inside a synctest bubble; every op and callback stamped from one atomic counter; history oracles are linear-time and schedule-independent. A read invoked after call-time+ttl never returns the value.",
-    'C08': 'cacheconc stage: 2..16 (thorough ..64) goroutines x 10..120 generated ops on 2..32 shared keys (hot-key bias, some owned keys), GOMAXPROCS 1..16, yielding/fake-sleeping callbacks, setBufSize 1..1024, MaxCost 3..22, inside a synctest bubble; every op and callback stamped from one atomic counter; history oracles are linear-time and schedule-independent. All twelve call types, under -race with GORACE halt_on_error. Oracle: race detector, panics in any goroutine, and a virtual-time watchdog (24h of fake time pass only if every goroutine is durably blocked). Non-trivial: >=3 distinct call types overlapped in time on one key, or a Clear ran in a case with hits.',
+    'C08': 'cacheconc stage: 2..16 (thorough ..64) goroutines x 10..120 generated ops on 2..32 shared keys (hot-key bias, some owned keys), GOMAXPROCS 1..16, yielding/fake-sleeping callbacks, setBufSize 1..1024, MaxCost 3..22, inside a synctest bubble; every op and callback stamped from one atomic counter; history oracles are linear-time and schedule-independent. All twelve call types (UpdateMaxCost also lowering and toggling the capacity), clients that wake exactly at expiry ticks, under -race with GORACE halt_on_error. Oracle: race detector, panics in any goroutine, a virtual-time watchdog (24h of fake time pass only if every goroutine is durably blocked) and a stop-the-world goroutine census for mutex deadlocks (no goroutine running cache code runnable, one or more waiting for a mutex, twice 3 s apart). Non-trivial: >=3 distinct call types overlapped in time on one key, or a Clear ran in a case with hits.',
     'C13': "cachesm stage: sequential client + harness-owned applier + synctest fake clock (DESIGN.md section 3, E1). Per case a config (MaxCost fitting 2..5 items or roomy, NumCounters, BufferItems, Metrics, IgnoreInternalCost, Cost fn, ShouldUpdate fn, ticker 1..5 s, setBufSize 1..64, bucket 1|5 s, 8|32 keys) and 5..60+ generated actions from Set/SetWithTTL/Del/Get/GetTTL/IterValues/Step(n)/Wait/park-in-Wait/Advance(d)/Sweep/SweepWith(program inside the j-th OnEvict)/Quiesce/UpdateMaxCost/Clear (stand-in or live applier), always ended by drain + Close + calls on the closed cache. Oracle: reference model with explicit FIFO (rules R1-R9); only assertions owned by this property are reported, a case that breaks another property's assertion first is discarded and counted. C13-owned at every drained point: keys(accounting)==keys(map)==model, IterValues yields each unexpired resident value once and stops when asked, RemainingCost()==MaxCost when nothing is left. Non-trivial: eviction + expiry sweep + Del in the case and a drained check with residents. cacheconc stage: 2..16 (thorough ..64) goroutines x 10..120 generated ops on 2..32 shared keys (hot-key bias, some owned keys), GOMAXPROCS 1..16, yielding/fake-sleeping callbacks, setBufSize 1..1024, MaxCost 3..22, inside a synctest bubble; every op and callback stamped from one atomic counter; history oracles are linear-time and schedule-independent. End state: accounting keys == map keys, IterValues == map values.",
     'C14': "cachesm stage: sequential client + harness-owned applier + synctest fake clock (DESIGN.md section 3, E1). Per case a config (MaxCost fitting 2..5 items or roomy, NumCounters, BufferItems, Metrics, IgnoreInternalCost, Cost fn, ShouldUpdate fn, ticker 1..5 s, setBufSize 1..64, bucket 1|5 s, 8|32 keys) and 5..60+ generated actions from Set/SetWithTTL/Del/Get/GetTTL/IterValues/Step(n)/Wait/park-in-Wait/Advance(d)/Sweep/SweepWith(program inside the j-th OnEvict)/Quiesce/UpdateMaxCost/Clear (stand-in or live applier), always ended by drain + Close + calls on the closed cache. Oracle: reference model with explicit FIFO (rules R1-R9); only assertions owned by this property are reported, a case that breaks another property's assertion first is discarded and counted. Roomy TTL profile with Sweep, SweepWith programs (Set with later/no/short TTL, Del, Get on keys of the swept bucket, executed inside the first or second OnEvict of the sweep), late application scenarios and Quiesce. C14-owned: a sweep removes only entries whose current expiration is non-zero and has passed; after Quiesce nothing expired for > 2 buckets is left. Non-trivial: a sweep removed >=1 entry while another entry was re-written during the sweep or applied after its expiry.",
-    'C15': "cachesm stage: sequential client + harness-owned applier + synctest fake clock (DESIGN.md section 3, E1). Per case a config (MaxCost fitting 2..5 items or roomy, NumCounters, BufferItems, Metrics, IgnoreInternalCost, Cost fn, ShouldUpdate fn, ticker 1..5 s, setBufSize 1..64, bucket 1|5 s, 8|32 keys) and 5..60+ generated actions from Set/SetWithTTL/Del/Get/GetTTL/IterValues/Step(n)/Wait/park-in-Wait/Advance(d)/Sweep/SweepWith(program inside the j-th OnEvict)/Quiesce/UpdateMaxCost/Clear (stand-in or live applier), always ended by drain + Close + calls on the closed cache. Oracle: reference model with explicit FIFO (rules R1-R9); only assertions owned by this property are reported, a case that breaks another property's assertion first is discarded and counted. Clear/Close-heavy profile with parked waiters. C15-owned: after Clear every key misses, map and expiry index empty, RemainingCost()==MaxCost(), metrics zero, parked waiters released, all previously live values exited once, run continues on the fresh model; after Close: Set false/Get miss/calls return, no processItems goroutine left, no callbacks. Non-trivial: a Clear found a buffered new item and a buffered update or tombstone.",
+    'C15': "cachesm stage: sequential client + harness-owned applier + synctest fake clock (DESIGN.md section 3, E1). Per case a config (MaxCost fitting 2..5 items or roomy, NumCounters, BufferItems, Metrics, IgnoreInternalCost, Cost fn, ShouldUpdate fn, ticker 1..5 s, setBufSize 1..64, bucket 1|5 s, 8|32 keys) and 5..60+ generated actions from Set/SetWithTTL/Del/Get/GetTTL/IterValues/Step(n)/Wait/park-in-Wait/Advance(d)/Sweep/SweepWith(program inside the j-th OnEvict)/Quiesce/UpdateMaxCost/Clear (stand-in or live applier), always ended by drain + Close + calls on the closed cache. Oracle: reference model with explicit FIFO (rules R1-R9); only assertions owned by this property are reported, a case that breaks another property's assertion first is discarded and counted. Clear/Close-heavy profile with parked waiters. C15-owned: after Clear every key misses, map and expiry index empty, access-frequency state zero, RemainingCost()==MaxCost(), metrics zero, parked waiters released, all previously live values exited once, run continues on the fresh model; after Close: Set false/Get miss/calls return, no processItems goroutine left, no callbacks. Non-trivial: a Clear found a buffered new item and a buffered update or tombstone.",
     'C17': "cachesm stage: sequential client + harness-owned applier + synctest fake clock (DESIGN.md section 3, E1). Per case a config (MaxCost fitting 2..5 items or roomy, NumCounters, BufferItems, Metrics, IgnoreInternalCost, Cost fn, ShouldUpdate fn, ticker 1..5 s, setBufSize 1..64, bucket 1|5 s, 8|32 keys) and 5..60+ generated actions from Set/SetWithTTL/Del/Get/GetTTL/IterValues/Step(n)/Wait/park-in-Wait/Advance(d)/Sweep/SweepWith(program inside the j-th OnEvict)/Quiesce/UpdateMaxCost/Clear (stand-in or live applier), always ended by drain + Close + calls on the closed cache. Oracle: reference model with explicit FIFO (rules R1-R9); only assertions owned by this property are reported, a case that breaks another property's assertion first is discarded and counted. Metrics on. C17-owned at drained points: Hits+Misses==Gets since creation/Clear, KeysAdded-KeysEvicted==resident keys, CostAdded-CostEvicted==MaxCost-RemainingCost (mod 2^64), SetsDropped==refused new-key Sets (and Set returns false iff the reference FIFO is full), GetsKept+GetsDropped<=Gets. Non-trivial: cost-lowering overwrite + eviction + drop. cacheconc stage: 2..16 (thorough ..64) goroutines x 10..120 generated ops on 2..32 shared keys (hot-key bias, some owned keys), GOMAXPROCS 1..16, yielding/fake-sleeping callbacks, setBufSize 1..1024, MaxCost 3..22, inside a synctest bubble; every op and callback stamped from one atomic counter; history oracles are linear-time and schedule-independent. End state laws from the history.",
     "C09": "policy stage: newDefaultPolicy with NumCounters 2..512, population 0..12 keys (costs 1 / 1..10 / 0..100) built through "
            "the fast path, 0..20 recorded accesses per key (round-robin, plus noise keys), MaxCost = sum + slack (0, 0..3, 0..60), "
@@ -149,7 +149,7 @@ RULES = {
            "distinct = FNV hash of (NumCounters, ops).",
     "C10": "rapid state machine over z.Tree against map[uint64]uint64: per case a page size (4..255 keys per page, biased to 4..9), "
            "1..90 ops from Set/Get/DeleteBelow/IterateKV/rewriting IterateKV/Reset/ascending-descending runs/(rarely) a bulk insert "
-           "that outgrows the 1 MiB buffer; keys dense, random 64-bit, neighbours of live keys, boundaries 1,2,2^64-4..2^64-2; values "
+           "that outgrows the 1 MiB buffer; one case in six runs in 'squeeze' mode (tree started on a one-page buffer and trimmed before each Set so that the buffer is reallocated at a generated page allocation); keys dense, random 64-bit, neighbours of live keys, boundaries 1,2,2^64-4..2^64-2; values "
            "1..16, random, 2^64-1; thresholds 0,1,2^64-1, v and v+1 of live values. Oracle: Get of touched keys and neighbours after each op, "
            "Get of every key ever used + IterateKV multiset + page-structure invariant after DeleteBelow/rewrite/Reset/end. Non-trivial: "
            "tree reached >=3 levels or >=8 pages AND a DeleteBelow removed >=1 and kept >=1 key AND a page was recycled AND a later Set "
@@ -159,7 +159,7 @@ RULES = {
            "page-structure invariant (free list acyclic, length NumPagesFree, disjoint from reachable, union = all pages); rare plans: outgrow the file before and after a reopen; fill to the last whole page slot of the initial file (+-1) and reopen. Non-trivial: "
            ">=1 Reopen with >=2 free pages and a later Set that consumed a free page; distinct = FNV hash of (page size, op list).",
     "C20": "rapid generator: even length 0..520 (biased to small and to 8-word block edges), offset 0..9 in a backing "
-           "array with 8..17 adversarial words behind the slice, ascending keys (dense/sparse/saturating/duplicates), "
+           "array with 8..17 adversarial words behind the slice, ascending keys (dense/sparse/saturating/duplicates), 0..pad words of spare capacity behind len(xs), "
            "k from {0, 2^64-1, key, key+-1, beyond last key, random}; oracle Search == Naive == local loop and equal "
            "answers for equal contents in different surroundings. Non-trivial: len%8 != 0 (or len 0), no key >= k inside "
            "the slice, and at least one of the words a 4-keys-per-step kernel would inspect behind the slice is >= k; "
